@@ -290,3 +290,121 @@ func ruleCANCEL(c *Ctx) {
 		c.add(rule, "count:", token.NoPos, CountDropped, true, "only %d cancellable parser packages found (js, tm, test confirmed by hand)", nPkgs)
 	}
 }
+
+// MONOTONE(poll-counter): the context is polled when (counter & M) == 0, so the counter has to
+// keep counting for the whole parse. Inside a parser package, the counter cell may only be
+// changed by adding a positive constant; it (or the session struct that holds it) may be
+// re-initialised only outside every loop. A reset inside the parse loop (e.g. after each
+// recovered syntax error) can keep the counter below M forever: the context is never polled and
+// a cancelled parse runs to the end of the input.
+func rulePOLLCOUNTER(c *Ctx) {
+	const rule = "MONOTONE(poll-counter)"
+	n := 0
+	for _, rel := range parserPkgs {
+		for _, f := range c.SrcFuncs(rel) {
+			loops := naturalLoops(f)
+			ord := map[string]int{}
+			for _, b := range f.Blocks {
+				for _, ins := range b.Instrs {
+					st, ok := ins.(*ssa.Store)
+					if !ok {
+						continue
+					}
+					kind := ""
+					if fa, ok := st.Addr.(*ssa.FieldAddr); ok && fieldName(fa.X.Type(), fa.Field) == "shiftCounter" {
+						kind = "field"
+					} else if pt, ok := st.Addr.Type().Underlying().(*types.Pointer); ok {
+						if nt, ok := pt.Elem().(*types.Named); ok && nt.Obj().Name() == "session" {
+							kind = "struct"
+						}
+					} else if al, ok := st.Addr.(*ssa.Alloc); ok && al.Comment == "shiftCounter" {
+						kind = "field"
+					}
+					if al, ok := st.Addr.(*ssa.Alloc); ok && al.Comment == "shiftCounter" {
+						kind = "field"
+					}
+					if kind == "" {
+						continue
+					}
+					n++
+					key := ordKey(ord, ssaFuncKey(f)+":counter-store")
+					inLoop := innermostLoop(loops, b) != nil
+					if kind == "field" {
+						if bo, ok := st.Val.(*ssa.BinOp); ok && bo.Op == token.ADD {
+							if k, ok := bo.Y.(*ssa.Const); ok && k.Value != nil && k.Int64() > 0 && vpath(bo.X) == vpath(st.Addr) {
+								c.Ok(rule, key, st.Pos(), "the poll counter is advanced by a positive constant")
+								continue
+							}
+						}
+					}
+					if !inLoop {
+						c.Ok(rule, key, st.Pos(), "the poll counter is (re)initialised outside every loop")
+						continue
+					}
+					c.Bad(rule, key, st.Pos(), "the poll counter is reset inside a loop (%s store): with a reset at least every %s shifts the test (counter & M) == 0 never holds, the context is never polled and a cancelled parse runs on", kind, "M")
+				}
+			}
+		}
+	}
+	if n < 4 {
+		c.add(rule, "count:", token.NoPos, CountDropped, true, "only %d stores to a poll counter found", n)
+	}
+}
+
+// SOURCE(handler-identity): the generated ast.Parse hands the caller's ErrorHandler to the
+// parser unchanged. A wrapper that consults the context (or anything else) changes what a
+// syntax error does once the context is done: the parse returns a SyntaxError - neither the
+// context's error nor the uncancelled result.
+func ruleHANDLERID(c *Ctx) {
+	const rule = "SOURCE(handler-identity)"
+	n := 0
+	for _, rel := range []string{"parsers/js/ast", "parsers/tm/ast", "parsers/test/ast", "parsers/json/ast", "parsers/simple/ast"} {
+		f := c.SSAFunc(rel, "Parse")
+		if f == nil {
+			continue
+		}
+		var ehParam *ssa.Parameter
+		for _, p := range f.Params {
+			if nt, ok := p.Type().(*types.Named); ok && nt.Obj().Name() == "ErrorHandler" {
+				ehParam = p
+			}
+		}
+		if ehParam == nil {
+			continue
+		}
+		for _, b := range f.Blocks {
+			for _, ins := range b.Instrs {
+				call, ok := ins.(*ssa.Call)
+				if !ok {
+					continue
+				}
+				g := call.Call.StaticCallee()
+				if g == nil || g.Name() != "Init" || g.Signature.Recv() == nil {
+					continue
+				}
+				for i, a := range call.Call.Args {
+					if i == 0 {
+						continue
+					}
+					if nt, ok := a.Type().(*types.Named); !ok || nt.Obj().Name() != "ErrorHandler" {
+						continue
+					}
+					n++
+					key := rel + ".Parse:Init-handler"
+					v := a
+					if ct, ok := v.(*ssa.ChangeType); ok {
+						v = ct.X
+					}
+					if v == ssa.Value(ehParam) {
+						c.Ok(rule, key, call.Pos(), "the caller's error handler is passed to the parser unchanged")
+					} else {
+						c.Bad(rule, key, call.Pos(), "ast.Parse passes %s instead of its own eh parameter to Parser.Init: a wrapped handler changes the outcome of a syntax error (e.g. once the context is done the parse returns a SyntaxError instead of the context's error or the recovered tree)", vpath(a))
+					}
+				}
+			}
+		}
+	}
+	if n < 2 {
+		c.add(rule, "count:", token.NoPos, CountDropped, true, "only %d ast.Parse wrappers with an error handler found (js, tm confirmed by hand)", n)
+	}
+}
